@@ -1052,6 +1052,8 @@ impl HomeRelayWatch {
     fn set_status(&self, url: &RelayUrl, state: RelayConnectionState) {
         let _guard = self.write_lock.lock().expect("poisoned");
         if self.inner.get().as_ref().map(RelayStatus::url) == Some(url) {
+            #[cfg(feature = "verif-hooks")]
+            crate::verif_hooks::sched::pause_sync("relay_actor.home_watch.between_get_set");
             let _ = self.inner.set(Some(RelayStatus::new(url.clone(), state)));
         }
     }
@@ -1062,6 +1064,23 @@ impl HomeRelayWatch {
 
     pub(crate) fn watch(&self) -> n0_watcher::Direct<Option<RelayStatus>> {
         self.inner.watch()
+    }
+}
+
+/// Verification accessors for the module-private [`HomeRelayWatch`] methods.
+#[cfg(feature = "verif-hooks")]
+impl HomeRelayWatch {
+    pub(crate) fn verif_set(&self, url: RelayUrl, state: RelayConnectionState) {
+        self.set(url, state)
+    }
+    pub(crate) fn verif_clear(&self) {
+        self.clear()
+    }
+    pub(crate) fn verif_set_status(&self, url: &RelayUrl, state: RelayConnectionState) {
+        self.set_status(url, state)
+    }
+    pub(crate) fn verif_get(&self) -> Option<RelayStatus> {
+        self.get()
     }
 }
 
